@@ -63,6 +63,31 @@ def gen_scenario(rng, cfg, n_calls, multi_prob, history=None):
     return {"sig": case["sig"], "base": [(c["B"], c["A"]) for c in case["base"]], "pool": pool, "cfg": list(cfg), "history": history}
 
 
+def gen_scenario_literals(rng, cfg):
+    """Literal sweep: a multi-layer base of literal conditionals over 3 atoms and the pool of ALL conditionals (l|m) between
+    literals; long sequential batches on one manager. Consecutive queries then differ in a single literal (x vs y, x vs !x),
+    the shape on which state carried from one query to the next (memo tables keyed too coarsely, solver scopes) shows."""
+    s, be, weakly = cfg
+    sig = list(infer.SIG[:3])
+    lits = [M.V(a) for a in sig] + [M.Not(M.V(a)) for a in sig]
+    for _ in range(200):
+        conds = [(rng.choice(lits), rng.choice(lits)) for _ in range(rng.choice([3, 3, 4]))]
+        bv = [M.cond_vec(B, A, sig) for B, A in conds]
+        fin, inf = infer.pysem.part(bv)
+        if not inf and len(fin) >= 2:
+            break
+    else:
+        return None
+    pool = [(b, a) for a in lits for b in lits]
+    order = list(range(len(pool)))
+    rng.shuffle(order)
+    history = []
+    for part in (order[:14], order[14:26], order[26:]):
+        keys = rng.sample(range(0, 60), len(part))
+        history.append({"batch": [[keys[i], part[i]] for i in range(len(part))], "multi": False, "delays": [0] * len(part)})
+    return {"sig": sig, "base": conds, "pool": pool, "cfg": list(cfg), "history": history, "literal_sweep": True}
+
+
 def _exec_scenario(sc):
     import impl
     import tracer
@@ -300,6 +325,12 @@ def run(chk: Check, tier: str):
         sc = gen_scenario(rng, cfg, rng.choice([2, 3, 3, 4]), multi_prob=0.25)
         if sc:
             scen.append(sc)
+    lit_cfgs = [c for c in SYS_CONFIGS if c[0] in ("w", "l", "c", "z") and not c[2]]
+    for i in range(len(lit_cfgs) * (2 if tier == "quick" else 12)):
+        sc = gen_scenario_literals(rng, lit_cfgs[i % len(lit_cfgs)])
+        if sc:
+            scen.append(sc)
+    chk.cov["literal_sweeps"] = sum(1 for x in scen if x.get("literal_sweep"))
     for i, h in enumerate(sim_histories(chk, rng, 60 if tier == "quick" else 600, tier)):
         sc = gen_scenario(rng, SYS_CONFIGS[i % len(SYS_CONFIGS)], 0, 0, history=h)
         if sc:
